@@ -266,15 +266,15 @@ package core
 //@ lemma! jdn_next_year(y int): 0 <= y && y < 3000 ==> jdn(y + 1, 1, 1) == jdn(y, 12, 31) + 1
 
 // ---- milliseconds --------------------------------------------------------------------------------
+// Plus delegates to Go's time package (assumed): adding a positive number of milliseconds gives a later valid date
 //@ func (d SuDate) Plus(yr, mon, day, hr, min, sec, ms) (r)
 //@   assumed
-//@   modifies all
 //@   ensures validDate(r)
+//@   ensures yr == 0 && mon == 0 && day == 0 && hr == 0 && min == 0 && sec == 0 && ms > 0 ==> dateLess(d, r)
 //@ func (d SuDate) AddMs(ms) (r)
 //@   requires validDate(d) && 0 < ms && ms < 100
-//@   modifies all
 //@   ensures! fast: dMs(d) + ms < 1000 ==> r.date == d.date && r.time == d.time + ms && dMs(r) == dMs(d) + ms && dSecond(r) == dSecond(d) && dMinute(r) == dMinute(d) && dHour(r) == dHour(d)
-//@   ensures! later: dMs(d) + ms < 1000 ==> dateLess(d, r)
+//@   ensures! later: dateLess(d, r) && validDate(r)
 //@ func (d SuDate) WithoutMs() (r)
 //@   ensures! r.date == d.date && dMs(r) == 0 && dSecond(r) == dSecond(d) && dMinute(r) == dMinute(d) && dHour(r) == dHour(d)
 //@ func (d SuDate) timeAsMs() (r)
@@ -287,3 +287,21 @@ package core
 //@ func DateFromLiteral(s) (r)
 //@   requires len(s) > 0
 //@   modifies all
+
+//@ property C34
+// ---- client side timestamps (everything below runs under tsLock: one atomic step) ----------
+//@ func (d IDbms) Timestamp() (r)
+//@   assumed
+//@   modifies all
+//@   ensures validDate(r)
+// State: tsLast is the last value handed out (limit 5) or the base of the current
+// block (limit 256); tsCount counts the values taken from the block.
+//@ spec tsInv() bool = 0 <= tsCount && (tsLimit == 0 || tsLimit == 5 || tsLimit == 256) && (tsLimit != 0 ==> validDate(tsLast)) && (tsLimit == 5 && tsCount < 5 ==> dMs(tsLast) < 500 + tsCount)
+//@ func (th *Thread) Timestamp() (r)
+//@   nonil
+//@   requires tsInv() && tsCount < 1000000
+//@   modifies all
+//@   ensures! inv: tsInv()
+//@   ensures! fast5: old(tsCount) + 1 < old(tsLimit) && old(tsLimit) == 5 ==> typeis(r, "SuDate") && unbox(r, "SuDate") == tsLast && tsLast.date == old(tsLast.date) && tsLast.time == old(tsLast.time) + 1 && tsCount == old(tsCount) + 1 && tsLimit == 5
+//@   ensures! fast256: old(tsCount) + 1 < old(tsLimit) && old(tsLimit) == 256 ==> typeis(r, "SuTimestamp") && unbox(r, "SuTimestamp").SuDate == old(tsLast) && tsLast == old(tsLast) && unbox(r, "SuTimestamp").extra == tsCount && tsCount == old(tsCount) + 1 && 1 <= tsCount && tsCount <= 255
+//@   ensures! fetch: !(old(tsCount) + 1 < old(tsLimit)) ==> typeis(r, "SuDate") && unbox(r, "SuDate") == tsLast && tsCount == 0 && (dMs(tsLast) < 500 ==> tsLimit == 5) && (dMs(tsLast) >= 500 ==> tsLimit == 256)
